@@ -1272,8 +1272,17 @@ def late_case(draw):
         for _ in range(draw(st.integers(1, 2))):
             mans.append(dict(kind="imp", t=draw(instant(h_us, 1, n * h_us - 1)), dv=draw(vec3(-2.0, 1.5)),
                              tag=draw(st.sampled_from(TAGS))))
-    return dict(el=el, h_us=h_us, n=n, k=k, frac=frac, mans=mans, t0=draw(epochs(n * h_us)),
-                how=draw(st.sampled_from(["iter", "iter", "ephem", "propagate"])))
+    # ties drawn on purpose: the request starts EXACTLY at an impulse date / at the first or last instant of a burn
+    ties = []
+    for m in mans:
+        for e in ([m["t"]] if m["kind"] == "imp" else [m["start"], m["start"] + m["dur"]]):
+            if e % h_us == 0 and 1 <= e // h_us <= n - 4:
+                ties.append(e // h_us)
+    tie = bool(ties) and draw(st.integers(0, 2)) == 0
+    if tie:
+        k, frac = draw(st.sampled_from(ties)), 0.0
+    return dict(el=el, h_us=h_us, n=n, k=k, frac=frac, mans=mans, t0=draw(epochs(n * h_us)), tie=tie,
+                how=draw(st.sampled_from(["iter", "iter", "ephem", "propagate", "propagate_td", "ephemeris", "iter_kw"])))
 
 
 def check_late(case):
@@ -1320,8 +1329,16 @@ def check_late(case):
     how = case["how"]
     if how == "ephem" and (n - k < 10 or not on_grid):
         how = "iter"        # re-sampling a span shorter than 8 steps is refused (known finding C08/keplernum-short-span)
+    if how == "ephemeris" and (n - k < 10 or not on_grid):
+        how = "iter_kw"
     if how == "propagate":
         pts = [orb.propagate(S)]
+    elif how == "propagate_td":
+        pts = [orb.propagate(timedelta(microseconds=s_us))]          # offset from the orbit's date instead of a Date
+    elif how == "ephemeris":
+        pts = list(orb.ephemeris(start=S, stop=E, step=timedelta(microseconds=h_us)))
+    elif how == "iter_kw":
+        pts = list(orb.iter(start=S, stop=timedelta(microseconds=n * h_us - s_us)))    # stop as a duration from start
     elif how == "ephem":
         pts = list(orb.ephem(start=S, stop=E, step=timedelta(microseconds=h_us)))
     else:
@@ -1343,7 +1360,7 @@ def check_late(case):
         ref = [ys[j] for j in range(k, n + 1)]
         ptol, vtol = 1e-9 * rn, 1e-9 * vn
         m = min(len(ref), len(got))
-        if how != "propagate" and len(got) != len(ref):
+        if how not in ("propagate", "propagate_td") and len(got) != len(ref):
             raise Violation("late-start-length", f"{how} from step {k}: {len(got)} points, {len(ref)} expected")
     else:
         if in_burn:
@@ -1371,7 +1388,7 @@ def check_late(case):
                                  f"burn [{mm['start'] / 1e6}, {(mm['start'] + mm['dur']) / 1e6}) s dated by its {mm['date_pos']}")
                                 for mm in case["mans"]),
                             on_grid=on_grid, near=near, point=j)
-    cls = el_classes(el) + [f"how:{how}", "start:on-grid" if on_grid else "start:off-grid"]
+    cls = el_classes(el) + [f"how:{how}", "start:on-grid" if on_grid else "start:off-grid"] + (["start-tie"] if case.get("tie") else [])
     for mm in case["mans"]:
         if mm["kind"] == "cont":
             rel = "before" if s_us <= mm["start"] else "after" if s_us >= mm["start"] + mm["dur"] else "inside"
